@@ -127,9 +127,9 @@ structure TLoc where
   cur : Table
 deriving DecidableEq, Repr
 
-/-- `TableStore::{get_head, get_head_locked, save_table}`.  `guardEq = false` is the code as it is
-    (F8): `get_head_locked` removes `tables[1..]` without comparing their names with the merged
-    table's name.  `save onCur es` mutates the table just returned by `get_head_locked` (`onCur`) or
+/-- `TableStore::{get_head, get_head_locked, save_table}`.  `guardEq = false` is the code before the
+    F8 repair (/repo 9f7a0d7): `get_head_locked` removed `tables[1..]` without comparing their names
+    with the merged table's name.  The driver uses the generated constant `tableGuardEq`.  `save onCur es` mutates the table just returned by `get_head_locked` (`onCur`) or
     the table the process already held (a possibly stale head). -/
 def expand (guardEq : Bool) : TInstr → List Nat → List Table → TLoc → Option (TLoc × List (Instr Table TInstr))
   | .write, _, _, l => some (l, [])
